@@ -89,6 +89,66 @@ let le a b = BinNat.N.leb a b
 let release = Array.length Sys.argv > 1 && Sys.argv.(1) = "--release"
 let t0 = n_of_dec "1000000000"
 
+(* one request of a mixed history: letter of the model's context *)
+let mletter slip kind c = if String.sub kind 0 1 = "m" then (match Rrl.final_response c with None -> "-" | Some _ -> "S") else letter slip c
+
+(* stream identity for the specification of mixed traffic from ONE source: category, and for
+   NOERROR the lower-cased name the response is about *)
+let stream_id kind =
+  let (_, rc, q, sos, _) = kind_ctx kind in
+  let lower_label l = Stdlib.List.map (fun x -> let v = int_of_n x in if v >= 65 && v <= 90 then v + 32 else v) l in
+  if rc = 0 then
+    let n = match sos with Some n -> n | None -> (match q with Some n -> n | None -> []) in
+    (0, Stdlib.List.map lower_label n)
+  else if rc = 3 then (3, []) else (1, [])
+
+let run_mixed ne nx er win slip size edns seq =
+  let slip_i = int_of_string slip in
+  let edns = edns = "1" in
+  let reqs = Stdlib.List.map (fun r -> match String.split_on_char ':' r with
+      | [k; t; g] -> (k, (if t = "t" then Rrl.Tcp else Rrl.Udp), n_of_dec g)
+      | _ -> failwith "bad request") (String.split_on_char ',' seq) in
+  let _, timed = Stdlib.List.fold_left (fun (t, acc) (k, tr, g) -> let t' = n_add t g in (t', (k, tr, t') :: acc)) (t0, []) reqs in
+  let timed = Stdlib.List.rev timed in
+  let src = Rrl.V4 (Stdlib.List.map n_of_int [192; 0; 2; 77]) in
+  let model =
+    match params ne nx er win (n_of_int slip_i) (n_of_dec size) (n_of_int 24) (n_of_int 56) with
+    | Stdlib.Error e -> e
+    | Stdlib.Ok p ->
+      let h = Stdlib.List.map (fun (k, tr, t) -> ((mk_ctx k edns src tr, t), N0)) timed in
+      (match Rrl.run_requests hname hkey p (Rrl.rrl_new p t0) h with
+       | Res.Ok (_, cs) -> "ok " ^ String.concat "" (Stdlib.List.map2 (fun (k, _, _) c -> mletter slip_i k c) timed cs)
+       | Res.Err () -> "err"
+       | Res.Panic -> "panic") in
+  let oracle =
+    let z = N0 in
+    let bad r = r = z || not (le (n_mul r win) u32_max) in
+    if win = z || bad ne || bad nx || bad er || n_of_dec size = z then "reject"
+    else if n_of_dec size <> n_of_int 1 &&
+            Stdlib.List.length (Stdlib.List.sort_uniq compare
+              (Stdlib.List.filter_map (fun (k, tr, _) ->
+                   let (op, _, _, _, send) = kind_ctx k in
+                   if tr = Rrl.Udp && op = 0 && send then Some (stream_id k) else None) timed)) > 1
+    then "-"   (* several streams in a table with more than one slot: placement depends on the hash *)
+    else begin
+      (* one slot (or one stream): the table remembers only the stream of the last limited response *)
+      let holder = ref None and out = Buffer.create 16 in
+      Stdlib.List.iter (fun (k, tr, t) ->
+          let (op, rc, _, _, send) = kind_ctx k in
+          if not send then Buffer.add_string out "-"
+          else if tr = Rrl.Tcp || op <> 0 then Buffer.add_string out "S"
+          else begin
+            let sid = stream_id k in
+            let rate = if rc = 0 then ne else if rc = 3 then nx else er in
+            let ob = match !holder with Some (s, b) when s = sid -> Some b | _ -> None in
+            let (b', sent) = RrlBucketS.bucket_step rate win ob t in
+            holder := Some (sid, b');
+            Buffer.add_string out (if sent then "S" else vletter slip_i (RrlBucketS.limited_verdict (n_of_int slip_i) N0))
+          end) timed;
+      "ok " ^ Buffer.contents out
+    end in
+  model ^ " | " ^ oracle
+
 let () = run_lines (fun f ->
   match f with
   | [ne; nx; er; win; slip; size; kind; edns; gaps] ->
@@ -122,4 +182,6 @@ let () = run_lines (fun f ->
           "ok " ^ String.concat "" (Stdlib.List.map (vletter slip_i)
                                       (RrlBucketS.bucket_run rate win (n_of_int slip_i) None hist)) in
     model ^ " | " ^ oracle
+  | [ne; nx; er; win; slip; size; edns; seq] ->
+    run_mixed (n_of_dec ne) (n_of_dec nx) (n_of_dec er) (n_of_dec win) slip size edns seq
   | _ -> failwith "bad case line")
